@@ -27,6 +27,23 @@ class C05(PureCheck):
                "CHECK_DEADLOCK FALSE\n" % (3 if tier == "quick" else 4))
         return [dict(module="MC_Parse", cfg=cfg, workers=12, timeout=3000)]
 
+    def prepare(self, tier):
+        # earlier in the process the parser saw other control functions carrying the same parameter lists (cursor
+        # positioning, erase, the two-byte ESC H ...): what it made of those must not affect SGR sequences
+        from curtsies.formatstring import FmtStr
+        import itertools as it
+        for fin in "HKJAf":
+            for ps in list(it.chain(([c] for c in CODES), ([1, c] for c in (31, 44, 0)), ([0, c] for c in (1, 33)))) + [[]]:
+                try:
+                    FmtStr.from_str("a\x1b[" + ";".join(map(str, ps)) + fin + "b")
+                except Exception:  # noqa
+                    pass
+        for two in ("\x1bH", "\x1bM", "\x1b7"):
+            try:
+                FmtStr.from_str("a" + two + "b")
+            except Exception:  # noqa
+                pass
+
     def inputs(self, tier, rng):
         # round trips
         if tier == "thorough":
